@@ -358,6 +358,33 @@ package pickle
 //@   loop over for#4: invariant e != nil && e.memo != nil && (comparable(x) ==> has(e.memo, x))
 //@   loop over batch#2: invariant e != nil && e.memo != nil && (comparable(x) ==> has(e.memo, x))
 
+// C08/C07 (a fingerprint covers every element): in the list branch every element the sequence
+// reports is fetched from the iterator and handed to encode - at the head of the batching loops
+// exactly i elements have been fetched and exactly i encoded, i never passes Len, and the loop
+// ends only when i has reached Len - so no element of a long list is dropped between batches.
+//   n_enc  - number of values this goroutine handed to encode
+//   n_next - number of elements this goroutine fetched from an iterator
+//@ ghost n_enc int threadlocal = 0
+//@ ghost n_next int threadlocal = 0
+//@ func (*pickle.Encoder).encode variant counted
+//@   trusted
+//@   requires e != nil && e.memo != nil
+//@   ensures  n_enc == old(n_enc) + 1 && n_next == old(n_next)
+//@   ensures  e.memo == old(e.memo) && e.inProgress == old(e.inProgress)
+//@   modifies heap, olen, obytes, n_enc
+//@ func (starlark.Iterator).Next variant counted
+//@   borrows
+//@   ensures n_next == old(n_next) + 1
+//@   modifies n_next, deref(p)
+//@ func (*pickle.Encoder).encodeComplex variant every-element
+//@   uses (*pickle.Encoder).encode variant counted
+//@   uses (starlark.Iterator).Next variant counted
+//@   requires e != nil && e.memo != nil && e.inProgress != nil
+//@   modifies heap, olen, obytes, n_enc, n_next
+//@   loop over for#2: invariant encoded-and-fetched-so-far: n_enc == old(n_enc) + i && n_next == old(n_next) + i && 0 <= i && i <= len
+//@   loop over for#3: invariant batch-within-the-sequence: batch >= 0 && i + batch <= len
+//@   loop over for#3: invariant encoded-and-fetched-so-far: n_enc == old(n_enc) + i && n_next == old(n_next) + i && 0 <= i
+
 // ---------------------------------------------------------------- C07: memo ids are positional over a session
 // Memo ids are implicit: the n-th memoized value has id n on both sides, for as long as an Encoder
 // and the Decoder reading it live. Encode therefore keeps its memo (the same map, only growing)
